@@ -1,6 +1,7 @@
 (* C01: computed values equal NumPy's - the addressing laws the block-level computation rests on. *)
 
 From CubedV Require Import Model.Util Model.Keys Model.Geometry Model.OpsKF Model.ShapeSem Proofs.GeometryProofs Proofs.OpsKFProofs Proofs.ShapeSemProofs.
+From CubedV Require Import Model.Selection Proofs.SelectionProofs.
 From Coq Require Import Permutation.
 
 
@@ -57,3 +58,64 @@ Print Assumptions C01_regular_sum.
 
 Example C01_groups : pr_group 3 8 2 = [6; 7] /\ tree_rounds 2 3 8 = 1.
 Proof. split; reflexivity. Qed.
+
+(* Selection: chunk projection of a contiguous slice and the concat key function *)
+
+Theorem C01_sel_proj_chunks_spec :
+  forall c s e ci, 0 < c ->
+    (In ci (proj_chunks c s e) <-> (s < e /\ ci * c < e /\ s < (ci + 1) * c)).
+Proof. exact (proj_chunks_spec). Qed.
+Print Assumptions C01_sel_proj_chunks_spec.
+
+Theorem C01_sel_proj_element :
+  forall c s e x, 0 < c -> s <= x < e ->
+    In (x / c) (proj_chunks c s e) /\
+    fst (proj_chunk_sel c s e (x / c)) <= x - (x / c) * c < snd (proj_chunk_sel c s e (x / c)) /\
+    fst (proj_out_sel c s e (x / c)) + (x - (x / c) * c - fst (proj_chunk_sel c s e (x / c))) = x - s.
+Proof. exact (proj_element). Qed.
+Print Assumptions C01_sel_proj_element.
+
+Theorem C01_sel_proj_tiles :
+  forall c s e, 0 < c -> s < e ->
+    fst (proj_out_sel c s e (s / c)) = 0 /\
+    snd (proj_out_sel c s e ((e - 1) / c)) = e - s /\
+    (forall ci, s / c <= ci < (e - 1) / c ->
+       snd (proj_out_sel c s e ci) = fst (proj_out_sel c s e (ci + 1))) /\
+    (forall ci, In ci (proj_chunks c s e) ->
+       fst (proj_out_sel c s e ci) < snd (proj_out_sel c s e ci) /\
+       snd (proj_out_sel c s e ci) - fst (proj_out_sel c s e ci) =
+       snd (proj_chunk_sel c s e ci) - fst (proj_chunk_sel c s e ci)).
+Proof. exact (proj_tiles). Qed.
+Print Assumptions C01_sel_proj_tiles.
+
+Theorem C01_sel_bisect_pred_spec :
+  forall offsets x, offsets_ok offsets -> x < last offsets 0 ->
+    let i := bisect_pred offsets x in
+    S i < length offsets /\ nth i offsets 0 <= x < nth (S i) offsets 0.
+Proof. exact (bisect_pred_spec). Qed.
+Print Assumptions C01_sel_bisect_pred_spec.
+
+Theorem C01_sel_array_slices_cover :
+  forall offsets start stop fuel, offsets_ok offsets -> start <= stop -> stop <= last offsets 0 ->
+    length offsets <= fuel ->
+    contiguous offsets (array_slices fuel offsets start stop) start = Some stop.
+Proof. exact (array_slices_cover). Qed.
+Print Assumptions C01_sel_array_slices_cover.
+
+Example C01_sel_ex_proj_chunks : proj_chunks 4 3 10 = [0; 1; 2].
+Proof. vm_compute; reflexivity. Qed.
+
+(* inputs of lengths 5, 0, 4: the zero-length array 1 is skipped *)
+Example C01_sel_ex_array_slices : array_slices 4 [0; 5; 5; 9] 3 8 = [(0, 3, 5); (2, 0, 3)].
+Proof. vm_compute; reflexivity. Qed.
+
+Example C01_sel_ex_bisect_equal_offsets : bisect_pred [0; 5; 5; 9] 5 = 2.
+Proof. vm_compute; reflexivity. Qed.
+
+(* arrays 7, 8, 9 of shapes (5,6), (0,6), (4,6), all chunked (2,3), concatenated on axis 0 into
+   shape (9,6) with chunks (4,3): output block (1,1) is rows [4,8) = row 4 of array 7 (chunk 2)
+   and rows [0,3) of array 9 (chunks 0 and 1) *)
+Example C01_sel_ex_concat_kf :
+  concat_kf [7; 8; 9] [[2; 3]; [2; 3]; [2; 3]] [0; 5; 5; 9] 0 [4; 3] [9; 6] [1; 1]
+  = [(7, [2; 1]); (9, [0; 1]); (9, [1; 1])].
+Proof. vm_compute; reflexivity. Qed.
